@@ -5,7 +5,7 @@ def _translate(ctx):
     sp = _u.spec_from_file_location("hvpart_translate", p)
     m = _u.module_from_spec(sp)
     sp.loader.exec_module(m)
-    return m.run(("color", "catalogue", "hash"))
+    return m.run(("color", "catalogue", "hash", "c17model", "c17proofs", "c17thms"))
 
 SPEC = dict(
     id="C19",
@@ -13,17 +13,22 @@ SPEC = dict(
     harness="hv_part", bin="hv_part", mode="c19",
     cases={"quick": 2500, "thorough": 60000},
     translate=_translate,
-    refuted=["HvPart.acyclic_accepted_refuted"],
     level="proof",
     design_ref="DESIGN.md §5 C19, §7 F9",
-    technique="Lean 4 proof over a transcription of partition_graph's dependency-graph construction (topo_sort's spec as explicit hypothesis) + translated catalogue tables + differential correspondence with the real FlatGraphBuilder/partition_graph on generated DFIR programs + independent dependency-graph oracle",
-    level_text=("Theorems (all flat graphs, any topo_sort meeting its C17 specification TopoSpec): partition returns the cycle error iff the "
+    technique="Lean 4 proof over a transcription of partition_graph's dependency-graph construction (topo_sort: C17's transcription and correctness proof re-checked in this project) + translated catalogue tables + differential correspondence with the real FlatGraphBuilder/partition_graph on generated DFIR programs + independent dependency-graph oracle",
+    level_text=("Theorems (all well-formed flat graphs; the model as run, no hypothesis about topo_sort: partition = partitionWith tsC17, where "
+                "tsC17 is C17's transcription of topo_sort copied with its correctness proof into HvPart/C17 on every run, and "
+                "tsC17_meets_TopoSpec proves the specification the generic theorems assume): partition returns the cycle error iff the "
                 "dependency graph (non-delayed pipes + reference + borrower-before-consumer + access-order + loop-ingress edges, built exactly as "
-                "find_subgraph_unionfind builds all_preds) has a cycle (partition_err_iff_cycle); the reported cycle is a closed walk of that graph "
-                "(reported_cycle_is_real); every accepted graph is acyclic; the conflicted-reference assert fires only on a self-dependency. "
-                "'Every acyclic graph is accepted' is REFUTED on `d = defer_tick(); d -> d;` (acyclic_accepted_refuted, finding F19: SubgraphMerge::new "
-                "asserts a != b on the delayed self-edge) and otherwise proved in partial form (acyclic_not_rejected_partial: no cycle error and no "
-                "reference assert; that the later defensive asserts never fire is C17's SubgraphMerge invariant, covered here by correspondence). "
+                "find_subgraph_unionfind builds all_preds) has a cycle (partition_rejects_iff_cycle / partition_err_iff_cycle); the reported cycle "
+                "is a closed walk of that graph (partition_reported_cycle_is_real); every accepted graph is acyclic; the conflicted-reference "
+                "assert fires only on a self-dependency. 'Every acyclic graph is accepted' is proved in partial form "
+                "(acyclic_not_rejected_partial: no cycle error, no reference assert, SubgraphMerge::new succeeds - new_accepts_enemy_pairs; that "
+                "the later defensive asserts of try_merge / make_subgraphs never fire needs the SubgraphMerge order invariant, C17, and is covered "
+                "here by correspondence; AcyclicAcceptedStatement stays a def). Finding F19 (`d = defer_tick(); d -> d;` made SubgraphMerge::new "
+                "panic on the enemy pair (d, d)) is FIXED in /repo; the witness is accepted (delayed_self_edge_accepted). Loop-ingress edges are "
+                "added for every same-tick dependency (pipes, references, access order) into a loop block since the fix of F18; a program whose "
+                "only cycle goes through such a block-contiguity edge is rejected (the F9 reading: a loop block runs as one unit). "
                 "Tie: input_delaytype_fn per operator, node_color and can_connect tables are re-translated from ops/*.rs, meta_graph.rs, "
                 "flat_to_partitioned.rs on every run; a program generator over the catalogue (unions, tees, joins, blocking ops, handoff()/singleton() "
                 "references with access groups, defer_tick, nested loops, direct and deferred back-edges) feeds the real "
@@ -31,10 +36,10 @@ SPEC = dict(
                 "exact reported cycle (node ids via a cfg hook), subgraphs, order, handoffs and delay marks are diffed; independently the harness "
                 "rebuilds the dependency graph from the specification, decides cyclicity with Kahn's algorithm and checks Err <-> cycle and that "
                 "each consecutive pair of the reported cycle is a dependency edge."),
-    level_note=("topo_sort/SubgraphMerge are re-transcribed (Model/TopoSort.lean, Model/Merge.lean) and executed; TopoSpec is a hypothesis of the "
-                "theorems (proved for the Rust algorithm under C17). A conflicted access-group reference makes the real code panic instead of "
-                "returning Err; it is counted as a rejection (it is a self-cycle)."),
-    trusted_base=["TopoSpec (topo_sort returns an order respecting every edge, or a real cycle) is an explicit hypothesis discharged by C17",
+    level_note=("SubgraphMerge is re-transcribed (Model/Merge.lean) and executed; the window re-sort inside try_merge uses this project's own "
+                "topo_sort transcription (Model/TopoSort.lean, unverified, correspondence only). A conflicted access-group reference makes the "
+                "real code panic instead of returning Err; it is counted as a rejection (it is a self-cycle)."),
+    trusted_base=["C17's topo_sort transcription (lean/HvGraphAlg Model/Topo.lean, tied to graph_algorithms.rs by C17's own correspondence check) is copied, with its proof, into this project on every run",
                   "slotmap iteration order = ascending slot index; BTreeMap/BTreeSet order = key order",
                   "FlatGraphBuilder (surface syntax -> flat graph) is exercised, not modelled: the model starts from the dumped flat graph"],
     assumptions=["graphs are those reachable from DFIR surface syntax through FlatGraphBuilder::build, merge_modules, eliminate_extra_unions_tees and the adjacent-handoff rejection of build_dfir_code",
